@@ -253,6 +253,10 @@ class Execution:
         self.outcomes = []
         self.op_steps = {}
         self.op_gen_steps = {}
+        self.op_gsteps = {}
+        self.out_digest = 0
+        self.keep_outcomes = False
+        self.full_outcomes = []
         # an op issued while a forward reference is unresolved is compared with
         # the same op alone on a fresh eager family holding the same classes
         self.strict_f3 = True
@@ -286,6 +290,9 @@ class Execution:
             self.stats["f2"] += 1
         self.outcomes.append([idx, sub, out["s"], out.get("e", {}).get("type")])
         self.digest = (self.digest * 1000003 + hash_json(out)) % T.M61
+        self.out_digest = (self.out_digest * 1000003 + hash_json(out)) % T.M61
+        if self.keep_outcomes:
+            self.full_outcomes.append([idx, sub, out])
         if out["s"] == "budget":
             self.violation = {"class": "budget:" + out.get("why", ""), "op_index": idx,
                               "sub": sub, "op": op, "got": out, "ref": None,
@@ -347,6 +354,7 @@ class Execution:
                 self.op_steps[idx] = tr.steps
                 faulted = False
                 self.op_gen_steps[idx] = tr.gen_steps
+                self.op_gsteps[idx] = list(tr.gsteps)
                 if op.get("abort_at") or op.get("abort_gen"):
                     if tr.abort_site is not None:
                         faulted = True
